@@ -369,6 +369,19 @@ def worker(shard):
                 for t in TIMES:
                     check_message(mido, mido.Message('sysex', data=d, time=t),
                                   acc, ns)
+                # the same after the data was ASSIGNED in other sequence types
+                for conv in (list, bytearray, bytes, iter):
+                    m = mido.Message('sysex', time=1)
+                    if conv is iter and not d:
+                        continue
+                    try:
+                        m.data = conv(d) if conv is not iter else list(d)
+                        m.data += [1]
+                    except Exception as e:
+                        acc.violation(f'assign-data-raises/{conv.__name__}',
+                                      f'{e!r}', {'kind': 'assign'})
+                        continue
+                    check_message(mido, m, acc, ns)
         else:
             names = ref.attr_names(type_)
             if full:
